@@ -1,6 +1,6 @@
 fn main() {
     #[cfg(any(feature = "p_deep_field", feature = "p_ref_field", feature = "p_vec_field", feature = "p_string_field",
-              feature = "p_boxslice_field", feature = "p_no_repr_c", feature = "p_both_attrs", feature = "p_nested_bad", feature = "ok_control",
+              feature = "p_boxslice_field", feature = "p_no_repr_c", feature = "p_repr_align_only", feature = "p_repr_packed_only", feature = "p_repr_packed2_only", feature = "p_both_attrs", feature = "p_nested_bad", feature = "ok_control",
               feature = "p_enum_deep_before_tuple", feature = "p_enum_deep_last", feature = "p_enum_deep_struct_variant"))]
     c17probe::probe();
 }
